@@ -10,10 +10,11 @@ sys.path.insert(0, HERE)
 sys.path.insert(0, "/repo")
 props = [json.loads(l) for l in open(os.path.join(HERE, "properties.jsonl"))]
 checks, na = [], []
+READY = open(os.path.join(HERE, "verif", "props", "READY")).read().split()
 for p in props:
     pid = p["id"]
     path = os.path.join(HERE, "verif", "props", pid.lower() + ".py")
-    if not os.path.exists(path):
+    if not os.path.exists(path) or pid not in READY:
         na.append({"property_id": pid, "reason":
                    "runtime-monitoring check designed (DESIGN.md section 3) but not built yet; not claimed"})
         continue
